@@ -17,12 +17,101 @@ import (
 )
 
 type (
-	Once      = sync.Once
-	WaitGroup = sync.WaitGroup
-	Map       = sync.Map
-	Locker    = sync.Locker
-	Cond      = sync.Cond
+	Map    = sync.Map
+	Locker = sync.Locker
+	Cond   = sync.Cond
 )
+
+// WaitGroup replaces sync.WaitGroup: Wait is a scheduling point that is enabled once the counter is zero.
+// Outside a controlled execution it is the real thing.
+type WaitGroup struct {
+	real  sync.WaitGroup
+	n     int
+	owner *vsched.Exec
+	hb    int
+}
+
+//go:norace
+func (w *WaitGroup) fresh() {
+	if x := vsched.Cur(); w.owner != x {
+		w.owner, w.n = x, 0
+	}
+}
+
+//go:norace
+func (w *WaitGroup) Add(d int) {
+	if !vsched.Active() {
+		w.real.Add(d)
+		return
+	}
+	w.fresh()
+	w.n += d
+	if w.n < 0 {
+		panic("sync: negative WaitGroup counter")
+	}
+	if d < 0 {
+		vsched.Release(unsafe.Pointer(&w.hb))
+	}
+}
+
+func (w *WaitGroup) Done() { w.Add(-1) }
+
+//go:norace
+func (w *WaitGroup) Wait() {
+	if !vsched.Active() {
+		w.real.Wait()
+		return
+	}
+	w.fresh()
+	vsched.Point("waitgroup-wait", func() bool { return w.n == 0 || !vsched.Active() })
+	vsched.Acquire(unsafe.Pointer(&w.hb))
+}
+
+// Go is WaitGroup.Go of newer Go versions.
+func (w *WaitGroup) Go(f func()) {
+	w.Add(1)
+	vsched.Go("waitgroup-go", func() { defer w.Done(); f() })
+}
+
+// Once replaces sync.Once: a second caller waits (as a blocked thread) until the first caller's function
+// has returned.
+type Once struct {
+	real    sync.Once
+	state   int // 0 not run, 1 running, 2 done
+	owner   *vsched.Exec
+	hb      int
+	everRun bool
+}
+
+//go:norace
+func (o *Once) Do(f func()) {
+	if !vsched.Active() {
+		o.real.Do(func() { o.everRun = true; f() })
+		return
+	}
+	if o.everRun {
+		return // done before this execution began (process-wide state)
+	}
+	if o.owner != vsched.Cur() {
+		o.owner, o.state = vsched.Cur(), 0
+	}
+	vsched.Point("once-do", always)
+	switch o.state {
+	case 2:
+		vsched.Acquire(unsafe.Pointer(&o.hb))
+		return
+	case 1:
+		vsched.Point("once-wait", func() bool { return o.state == 2 || !vsched.Active() })
+		vsched.Acquire(unsafe.Pointer(&o.hb))
+		return
+	}
+	o.state = 1
+	defer func() {
+		o.state = 2
+		vsched.Release(unsafe.Pointer(&o.hb))
+	}()
+	f()
+}
 
 var NewCond = sync.NewCond
 
